@@ -1,57 +1,9 @@
 #!/usr/bin/env python3
 """Regenerates MANIFEST.json from props.py (claimed properties) — run after editing props.py."""
 import json, os
-from props import PROPS
+from props import PROPS, TEXT
 ROOT = os.path.dirname(os.path.abspath(__file__))
 ALL = [f"C{i:02d}" for i in range(1, 21)]
-TEXT = {
- "C01": ("Lean theorems over the mirror of the authorizer's bucket loop + Response conversion (allow_iff, deny_otherwise, errors_exact, reasons_exact, "
-         "perm_invariant, erroring_not_satisfied) for arbitrary policy lists/requests/stores; tied to the code by a differential run of the compiled model "
-         "against Authorizer::is_authorized, plus the statement checked on the implementation under permutation, id respelling, store order and call history.",
-         "proof over a hand-written model; correspondence is sampled (generators in harness/src/c01.rs); per-policy evaluation relies on C02's model"),
- "C02": ("Lean theorems over the mirror of the evaluator's value paths (short-circuiting, left-to-right, checked arithmetic, total ==, beq is an equivalence, "
-         "set construction order/duplicate-insensitive, contains/containsAll/containsAny/isEmpty, in/has/getAttr/is, like = declarative matcher for all patterns "
-         "and strings); the model is the definition: any disagreement with Evaluator::interpret on the generated stream is a failing input.",
-         "proof over a hand-written model; correspondence sampled through 6 routes (text, AST, EST, eval_expression, when, unless); error classes only"),
- "C04": ("Lean theorems over the mirror of the entity store's hierarchy maintenance (from/add/upsert/remove_entities with the three TCComputation modes, "
-         "update_entity_map/deep_eq, the touched-set bookkeeping and stale-edge stripping, repair_tc + add_ancestors DFS, enforce_tc_and_dag): enforce_exact, "
-         "repair_tc exact on acyclic graphs and rejecting only real cycles, the store invariant (ancestors = Reach+ over direct-parent links, acyclic, "
-         "parents/indirect disjoint) preserved by the operations, history induction, `in` = reflexive reachability; the model+spec define reachability: any "
-         "disagreement with Entities::{from,add,upsert,remove}_entities on generated histories (random + exhaustive small scope) is a failing input.",
-         "proof over a hand-written model; remove_entities is proved at full strength (any uid list), add_entities for any batch and upsert_entities for "
-         "one-entity batches on acyclic results plus soundness of rejection; cyclic_tc's SCC internals are modelled by contract; completeness of cycle "
-         "detection, multi-entity upsert batches and the compute_tc contract are stated in full (defs ...Full / named residual hypotheses of "
-         "history_inv_partial) but only checked by the correspondence; correspondence is sampled + exhaustive on <=3 uids"),
- "C05": ("Lean theorems over a token-level model of the printer (mirror of est/expr.rs Display / maybe_with_parens) and of the parser (recursive descent for "
-         "grammar.lalrpop composed with the cst_to_ast lowerings): unescape(escape s) = s for strings and patterns for every choice of escape_debug's tables; "
-         "Parse(Print e) = e on a stated fragment (parse_print_partial, full statement kept as a def). Tied to the code by cross-composition runs "
-         "(model parser on the real printer's output and on arbitrary generated texts incl. rejects, real parser on the model printer's output) and the "
-         "statement itself checked on the implementation for expressions, policies, templates and policy sets with evaluation on random requests.",
-         "proof over a hand-written model; parse_print proved for a fragment only; correspondence sampled + an exhaustive operator-pair grid; the harness tokenizer is trusted"),
- "C06": ("Lean theorems over a mirror of the JSON policy format (est/expr.rs, est.rs, scope_constraints.rs, entities/json/value.rs): est_roundtrip "
-         "(toExpr (ofExpr e) = e for every well-formed expression), est_policy_roundtrip (policies/templates and link records), est_eval (an accepted JSON policy "
-         "evaluates as the expression it denotes), pst/proto round trips on message-tree models; the property itself (JSON via CST->EST and AST->EST, PST, protobuf, "
-         "policy sets with links, equal responses, printed-text re-parse) is checked on the implementation for generated text and hand-built JSON policies, and the "
-         "compiled model is compared with from_json/to_json by cross-composition.",
-         "proof over a hand-written model; prost's byte encoding and serde/serde_json are NOT modelled: only their round trip is sampled; PST/protobuf theorems are about tree models"),
- "C07": ("Lean theorems over mirrors of the decimal/ip/datetime/duration parsers and operations (written-out recognisers + checked arithmetic); the model is the "
-         "definition of 'exact': any disagreement with the real extension functions on generated strings/values is a failing input.",
-         "proof over a hand-written model; std::net / chrono / regex are inside the implementation under check and are re-defined in the model"),
- "C11": ("Lean theorems over mirrors of the schema-conformance checkers (typecheck_restricted_expr_against_schematype, Type::typecheck_restricted_expr, "
-         "validate_entity with attributes/ancestors/tags/enum ids/actions, validate_request with scope variables and context): each checker accepts exactly "
-         "the data satisfying a declarative specification (InstanceOfType, ConformsEntity, ConformsContext, ConformsRequest), and every single-fault class of "
-         "the statement falsifies the specification; tied to the code by a differential run over generated schemas, conformant data and single-fault mutations "
-         "through all 16 schema-taking entry points, which are also compared with each other.",
-         "proof over a hand-written model of the checkers on concrete values; the resolved schema is serialised from Rust's ValidatorSchema (schema "
-         "construction not modelled); correspondence is sampled (generators in harness/src/gen_schema.rs)"),
- "C08": ("Lean theorems over mirrors of Template::link/check_binding/condition, of ast::PolicySet (templates, links, template_to_links_map; add_static, "
-         "add_template, link, unlink, remove_static, remove_template, merge_policyset) and of the public cedar_policy::PolicySet layer: link_eq_subst (evaluating a "
-         "linked policy = evaluating the substituted static policy, by induction over expressions), link_ok_iff, the representation invariant and its preservation "
-         "by every non-merge operation, failed operations change nothing, panic sites unreachable, histories, authorization = authorization over the substituted "
-         "static policies; tied to the code by a differential run over operation histories (both layers) plus an abstract-specification oracle evaluated on the implementation.",
-         "proof over a hand-written model; merge_policyset's invariant preservation and the refinement of the abstract specification are stated but checked only by the "
-         "sampled/exhaustive-small-scope correspondence and the harness oracle"),
-}
 checks = []
 import re
 def has_theorems(pid):
